@@ -702,6 +702,7 @@ def main(run):
                 run.broke("correspondence", "%s: implementation %.15g vs model %.15g" % (kind, ref, val), info)
     run.cov["correspondence"]["compared"] = ncmp
     run.cov["oracle"]["C-derivative-fails-on-non-symmetric-fc(cases)"] = f15_hits
+    run.cov["partial"] = ["gv_eq_grad_freq_partial: the Hellmann-Feynman derivative of the eigenvalue branch is a hypothesis (FullStatement_gv_eq_grad_freq stated, not proved); carried by the finite-difference oracle on the reported frequencies"]
     if as_written:
-        run.cov["partial"] = ["py_eq_c_on_symmetric holds only for index-permutation symmetric force constants while the source has "
-                              "`for (j = i; ...)`; c_ne_py_witness is the Lean counterexample; ddmC_fixed_eq_py is the theorem for the repaired bounds"]
+        run.cov["partial"].append("py_eq_c_on_symmetric holds only for index-permutation symmetric force constants while the source has "
+                                  "`for (j = i; ...)`; c_ne_py_witness is the Lean counterexample; ddmC_fixed_eq_py is the theorem for the repaired bounds")
